@@ -21,7 +21,69 @@ META = {
 }
 
 
+def history_case(rep, r: dict) -> None:
+    """the conversions depend on the beam as it is now (particles, reference energy), not on what was read from it
+    earlier: after the reference energy of an existing beam is re-assigned, every conversion equals the one of a beam
+    freshly built with that energy"""
+    import numpy as np
+    import torch
+    import cheetah
+    dt = torch.float64
+    t = lambda v: torch.tensor(v, dtype=dt)  # noqa: E731
+    P = np.array(r["particles"], dtype=float)
+    b = cheetah.ParticleBeam(t(P), t(r["E1"]), dtype=dt)
+    for nm in r["read_first"]:
+        v = getattr(b, nm)
+        if callable(v):
+            v()
+    if r["how"] == "assign":
+        b.energy = t(r["E2"])
+    else:
+        with torch.no_grad():
+            b.energy.mul_(r["E2"] / r["E1"])
+    E2 = float(b.energy)
+    fresh = cheetah.ParticleBeam(t(P), t(E2), dtype=dt)
+    obs = {"to_xyz_pxpypz": lambda x: x.to_xyz_pxpypz(), "p0c": lambda x: x.p0c, "energies": lambda x: x.energies,
+           "relativistic_beta": lambda x: x.relativistic_beta, "relativistic_gamma": lambda x: x.relativistic_gamma}
+    for nm, f in obs.items():
+        try:
+            g, w = f(b).detach().numpy(), f(fresh).detach().numpy()
+        except AttributeError:
+            continue
+        d = np.abs(g - w)
+        sc = np.maximum(np.abs(w).max(axis=0) if w.ndim == 2 else np.abs(w).max(), 1e-300)
+        if g.shape != w.shape or not np.all(d <= 1e-12 * sc):
+            rep.fail("falsifier", f"C18|ParticleBeam.{nm}|after the reference energy was changed",
+                     f"beam at {r['E1']!r} eV, {r['read_first']} read, energy then set to {E2!r} eV ({r['how']}): {nm} differs from the one of a beam "
+                     f"built with that energy by {float((d / sc).max()):.3g} (relative)", r)
+            return
+    # round trip at the new energy
+    back = cheetah.ParticleBeam.from_xyz_pxpypz(b.to_xyz_pxpypz(), b.energy, dtype=dt).particles.detach().numpy()
+    sc = np.maximum(np.abs(P).max(axis=0), [1e-6, 1e-6, 1e-6, 1e-6, 1e-6, 1e-4, 1.0])
+    if not np.all(np.abs(back - P) <= 1e-9 * sc):
+        rep.fail("falsifier", "C18|ParticleBeam.from_xyz(to_xyz)|after the reference energy was changed",
+                 f"round trip at the new reference energy {E2!r} eV differs by {float((np.abs(back - P) / sc).max()):.3g} (scaled)", r)
+
+
+def history_probe(ctx, n: int) -> None:
+    import elements as E
+    import lattices as LT
+    rep, rng = ctx.report, ctx.rng
+    reads = ["relativistic_beta", "p0c", "energies", "to_xyz_pxpypz", "relativistic_gamma"]
+    for _ in range(n):
+        E1 = float(E.energy(rng))
+        r = {"kind": "history", "particles": LT.gen_particles(rng, 8).tolist(), "E1": E1,
+             "E2": E1 * float(E.pick(rng, 0.05, 0.5, 2.0, 20.0)), "how": E.pick(rng, "assign", "inplace"),
+             "read_first": [reads[int(j)] for j in rng.choice(len(reads), size=int(rng.integers(1, 3)), replace=False)]}
+        if r["E2"] < 2 * E.MC2:
+            r["E2"] = 5e6
+        rep.fals_cases += 1
+        rep.count("probe:energy-history:" + r["how"])
+        history_case(rep, r)
+
+
 def run(ctx) -> None:
+    history_probe(ctx, ctx.n(20, 300))
     report_mismatches(ctx.report, "C18", run_bmadx_correspondence(ctx, "C18", ctx.n(15, 300)))
     run_xyz_correspondence(ctx, "C18", ctx.n(60, 1500))
     if F is not None:
@@ -29,6 +91,8 @@ def run(ctx) -> None:
 
 
 def corpus_case(ctx, r: dict) -> None:
+    if r.get("kind") == "history":
+        return history_case(ctx.report, r)
     if F is not None and hasattr(F, "corpus_case"):
         F.corpus_case(ctx, r)
 
